@@ -11,6 +11,7 @@ A shard is a pure function of the working tree, VERIF_SEED, the shard number and
 import importlib
 import json
 import os
+import signal
 import sys
 import time
 import traceback
@@ -40,9 +41,28 @@ def load_known(pid):
     return known
 
 
+class CaseTimeout(BaseException):
+    "a single case ran into the per-case watchdog: inconclusive (exit 2), never a violation"
+
+
+CASE_LIMIT = {"quick": 90, "thorough": 600}
+_limit = [0]
+
+
+def _on_alarm(signum, frame):
+    raise CaseTimeout()
+
+
 def evaluate(mod, case):
     ctx = Ctx()
-    mod.check(case, ctx)
+    if _limit[0]:
+        signal.signal(signal.SIGALRM, _on_alarm)
+        signal.alarm(_limit[0])
+    try:
+        mod.check(case, ctx)
+    finally:
+        if _limit[0]:
+            signal.alarm(0)
     return ctx
 
 
@@ -53,6 +73,7 @@ def run(pid, tier, seed, shard, nshards, outfile):
     mod = importlib.import_module("vf.props." + pid.lower())
     known = load_known(pid)
     t0 = time.time()
+    _limit[0] = int(CASE_LIMIT[tier] * float(os.environ.get("VERIF_TIMEOUT_SCALE", "1")))
 
     res = {
         "shard": shard,
@@ -103,7 +124,12 @@ def run(pid, tier, seed, shard, nshards, outfile):
         return None
 
     def record_failure(case, fail, origin):
-        still = lambda c: any(f.bucket == fail.bucket for f in evaluate(mod, c).fails)  # noqa: E731
+        def still(c):
+            try:
+                return any(f.bucket == fail.bucket for f in evaluate(mod, c).fails)
+            except CaseTimeout:
+                return False
+
         state["tally"] = False
         budget = 250 if tier == "quick" else 1500
         protect = getattr(mod, "PROTECT", ())
@@ -138,7 +164,11 @@ def run(pid, tier, seed, shard, nshards, outfile):
                 continue
             doc = json.load(open(os.path.join(regdir, name), encoding="utf-8"))
             case = doc["case"]
-            ctx = evaluate(mod, case)
+            try:
+                ctx = evaluate(mod, case)
+            except CaseTimeout:
+                res["error"] = f"regression {name} exceeded the per-case watchdog of {_limit[0]} s (inconclusive)"
+                continue
             res["regressions"] += 1
             res["evals"] += ctx.evals
             while True:
@@ -199,6 +229,9 @@ def run(pid, tier, seed, shard, nshards, outfile):
         except BaseException as e:  # noqa: BLE001
             if isinstance(e, (KeyboardInterrupt, SystemExit)):
                 raise
+            if _caused_by(e, CaseTimeout):
+                res["error"] = f"a case exceeded the per-case watchdog of {_limit[0]} s (inconclusive)"
+                break
             # Hypothesis wraps some errors (Flaky, FailedHealthCheck, ...): harness problems
             if state["last"] is not None and _caused_by_found(e):
                 case, f = state["last"]
@@ -214,17 +247,21 @@ def run(pid, tier, seed, shard, nshards, outfile):
     return 0 if res["error"] is None else 2
 
 
-def _caused_by_found(e):
+def _caused_by(e, cls):
     seen = set()
     while e is not None and id(e) not in seen:
         seen.add(id(e))
-        if isinstance(e, Found):
+        if isinstance(e, cls):
             return True
         subs = getattr(e, "exceptions", None)
-        if subs and any(_caused_by_found(s) for s in subs):
+        if subs and any(_caused_by(s, cls) for s in subs):
             return True
         e = e.__cause__ or e.__context__
     return False
+
+
+def _caused_by_found(e):
+    return _caused_by(e, Found)
 
 
 def replay(pid, path):
